@@ -59,6 +59,24 @@ def run_case(case):
             json.dump(JH.expected_for(req["recipe"], seed=int(case["seed"][-1])), f)
         n = case["n"]
         logp = os.path.join(hdir, "events.jsonl")
+        env_all = {}
+        if case.get("stale_failed"):
+            # history before the concurrent wave: one request for the SAME module failed (compiler wrapper made to fail once) and left
+            # <mod>.c.failed behind; the cause is gone when the wave starts.  Nothing fails during the wave itself.
+            from vf.checks.c15 import cc_wrapper
+
+            w = cc_wrapper(hdir)
+            env_all = {"CC": w}
+            flag = os.path.join(hdir, "FAIL_CC")
+            open(flag, "w").close()
+            pre = JH.launch({"role": "pre", "cache_dir": cache, "request": req, "timeout": 10, "log": os.path.join(hdir, "pre-events.jsonl"), "compile_args": CARGS},
+                            hdir, "pre", env_extra=dict(env_all, PYTHONHASHSEED="7"))
+            JH.wait_all([pre], watchdog=200)
+            os.unlink(flag)
+            stale = [f for f in os.listdir(cache) if f.endswith(".failed")]
+            if not stale:
+                return {"verdict": INCONCLUSIVE, "why": "the preparatory failing request left no .failed file"}
+            count("histories_with_stale_failed_marker")
         t0 = time.time() + 3.0 + 0.15 * n  # allow all interpreters to import
         procs = []
         plans = []
@@ -73,13 +91,13 @@ def run_case(case):
                     "compile_args": CARGS}
             plans.append({"role": spec["role"], "start_delay": spec["start_delay"], "delays": plan})
             # every process has its own string-hash seed, as separately started interpreters do
-            procs.append(JH.launch(spec, hdir, f"p{i}", env_extra={"PYTHONHASHSEED": str(i) if i % 4 else "random"}, strace=bool(case.get("strace"))))
+            procs.append(JH.launch(spec, hdir, f"p{i}", env_extra=dict(env_all, PYTHONHASHSEED=str(i) if i % 4 else "random"), strace=bool(case.get("strace"))))
         rcs = JH.wait_all(procs, watchdog=240)
         # second wave
         late = []
         for j in range(case.get("late", 1)):
             spec = {"role": f"late{j}", "cache_dir": cache, "request": req, "timeout": 120, "log": logp, "expected": exp_path, "compile_args": CARGS}
-            late.append(JH.launch(spec, hdir, f"late{j}", env_extra={"PYTHONHASHSEED": str(100 + j)}))
+            late.append(JH.launch(spec, hdir, f"late{j}", env_extra=dict(env_all, PYTHONHASHSEED=str(100 + j))))
         rcs2 = JH.wait_all(late, watchdog=120)
         events = JH.read_log(logp)
         res["evaluations"] = n + len(late)
@@ -168,7 +186,7 @@ def cases_for(tier, s):
     for i in range(n_hist):
         n = ns[i % 5] if tier == "thorough" or i % 5 != 4 or i < 10 else 4
         R.append({"n": n, "request": REQUESTS[i % len(REQUESTS)], "late": 1 + (i % 3 == 0), "seed": [s, 14, i],
-                  "strace": (i % 10 == 1) if tier == "quick" else (i % 8 == 1)})
+                  "strace": (i % 10 == 1) if tier == "quick" else (i % 8 == 1), "stale_failed": i % 6 == 2})
     return R
 
 
